@@ -44,14 +44,26 @@ def cyclic_case(rng):
     for i, t in enumerate(pre):
         nxt = pre[i + 1] if i + 1 < len(pre) else cyc[0]
         script(t, [1, nxt] + ([rng.choice(sib)] if sib and rng.random() < 0.5 else []))
+    closed_at = 0
+    late = L >= 2 and rng.random() < 0.5     # the cycle is closed by a later edit of the last member's script
     for i, t in enumerate(cyc):
         nxt = cyc[(i + 1) % L]
         d = [nxt] if rng.random() < 0.5 else [1, nxt]
         if sib and rng.random() < 0.4:
             d.insert(0, rng.choice(sib))
-        script(t, d)
+        if late and i == L - 1:
+            script(t, [1])
+        else:
+            script(t, d)
     for t in sib:
         script(t, [1])
+    if late:
+        # build the still acyclic chain from several entry points, then close the cycle
+        ops.append(("ifc", [cyc[0]], False))
+        if pre:
+            ops.append(("ifc", [pre[0]], False))
+        script(cyc[-1], [1, cyc[0]])
+    closed_at = len(ops)
     entries = pre[:1] + cyc
     for e in rng.sample(entries, min(len(entries), 3)):
         ops.append(("ifc", [e], False))
@@ -61,7 +73,7 @@ def cyclic_case(rng):
     ops.append(("ood",))
     ops.append(("targets",))
     ops.append(("sources",))
-    return depsgen.Case(names, rules, ops), dict(L=L, pre=pre, cyc=cyc, sib=sib)
+    return depsgen.Case(names, rules, ops), dict(L=L, pre=pre, cyc=cyc, sib=sib, closed_at=closed_at)
 
 
 def run(ctx):
@@ -83,7 +95,7 @@ def run(ctx):
             if o[0] in ("ifc", "redo"):
                 stats["commands"] += 1
                 p = deps_check.parse_line(l)
-                reaches = any(t in info["cyc"] or t in info["pre"] for t in o[1])
+                reaches = j >= info["closed_at"] and any(t in info["cyc"] or t in info["pre"] for t in o[1])
                 if reaches:
                     stats["cyclic_commands"] += 1
                     bad = None
